@@ -36,6 +36,7 @@ REPLAYS = os.path.join(OUT, "replays")
 WORKSPACE_CRATES = ["star-sharks", "adss", "sta-rs", "ppoprf", "star-wasm", "star-test-utils", "mon"]
 
 sys.path.insert(0, HERE)
+import props  # noqa: E402
 from props import PROPS  # noqa: E402  (per-property tables: level, rule, minimums, stages)
 
 ENV = dict(os.environ)
@@ -273,7 +274,15 @@ def check(prop, tier, seed):
             if sig not in kept:
                 violations.append((sig, "(witness dropped by cap; %d occurrences)" % cnt, {}, name))
         if primary:
+            waived = set()
+            for wc, keys in getattr(props, "WAIVERS", {}).get(prop, {}).items():
+                if res.get("counters", {}).get(wc, 0) > 0:
+                    waived.update(keys)
+            if waived:
+                acc.setdefault("notes", {})["waived_minimums"] = sorted(waived)
             for k, mn in spec.get("min_events", {}).items():
+                if k in waived:
+                    continue
                 if res.get("counters", {}).get(k, 0) < mn * (st.get("min_scale", 1.0)):
                     inconclusive.append("stage %s starved: %s=%d < %d" % (name, k, res.get("counters", {}).get(k, 0), mn))
 
